@@ -120,7 +120,7 @@ Section Hist.
       { unfold closure_reachable. apply orb_true_iff. right. apply existsb_exists. exists c. split.
         - apply in_seq. split; [lia|]. cbn. apply nth_error_Some. unfold get_ctx in H2. congruence.
         - apply andb_true_iff. split.
-          + unfold ctx_reachable. apply orb_true_iff. left. apply existsb_exists. exists (WFake c). split.
+          + apply ctx_reachable_of_direct. unfold ctx_reachable_direct. apply orb_true_iff. left. apply existsb_exists. exists (WFake c). split.
             * rewrite <- H1. apply nth_In. rewrite I1. exact Hv.
             * apply Nat.eqb_refl.
           + rewrite H2. apply existsb_eqb_in. apply (H6 m k Hs). }
